@@ -52,6 +52,26 @@ type world struct {
 	objs  map[int64]*block.Block
 	ids   map[*block.Block]int64
 	hashN map[int64]int64
+	pools map[int64]*node.Pool // side pools 1..7 that may hold the same node objects
+	nobjs map[int64]*node.Node // node objects made by `obj`
+}
+
+func (w *world) poolN(p int64) *node.Pool {
+	if p == 0 {
+		return w.pool
+	}
+	if w.pools[p] == nil {
+		w.pools[p] = node.NewPool(node.NodeTypeMiner)
+	}
+	return w.pools[p]
+}
+
+func mkMiner(id, pk string) *node.Node {
+	nd := node.Provider()
+	nd.Type = node.NodeTypeMiner
+	nd.PublicKey = pk
+	_ = nd.SetID(id)
+	return nd
 }
 
 func newWorld(mingen int) *world {
@@ -61,7 +81,7 @@ func newWorld(mingen int) *world {
 	mb.Miners = node.NewPool(node.NodeTypeMiner)
 	mb.Sharders = node.NewPool(node.NodeTypeSharder)
 	c.SetMagicBlock(mb)
-	return &world{c: c, pool: mb.Miners, r: round.NewRound(1), objs: map[int64]*block.Block{}, ids: map[*block.Block]int64{}}
+	return &world{c: c, pool: mb.Miners, r: round.NewRound(1), objs: map[int64]*block.Block{}, ids: map[*block.Block]int64{}, pools: map[int64]*node.Pool{}, nobjs: map[int64]*node.Node{}}
 }
 
 func isID(s string) bool {
@@ -150,16 +170,30 @@ func impl(ops []string) []string {
 	w := newWorld(0)
 	defer func() { chainPool.Put(w.c) }()
 	outs := make([]string, len(ops))
+	poisoned, inAdd := false, false
 	for i, op := range ops {
 		f := strings.Fields(op)
 		func() {
 			defer func() {
 				if r := recover(); r != nil {
 					outs[i] = "panic"
+					if inAdd {
+						// Pool.AddNode holds the pool's mutex without defer: after a panic inside it every later call on
+						// that pool would block for ever. The rest of the segment is answered without touching it.
+						poisoned = true
+					}
 				}
 			}()
 			outs[i] = "bad-op"
 			if len(f) == 0 {
+				return
+			}
+			inAdd = f[0] == "add" || f[0] == "addm" || f[0] == "padd"
+			if f[0] == "new" {
+				poisoned = false
+			}
+			if poisoned {
+				outs[i] = "pool-left-locked-by-panic"
 				return
 			}
 			objArg := func() *block.Block {
@@ -193,11 +227,36 @@ func impl(ops []string) []string {
 					outs[i] = "harness-bad-pk"
 					return
 				}
-				nd := node.Provider()
-				nd.Type = node.NodeTypeMiner
-				nd.PublicKey = f[2]
-				_ = nd.SetID(f[1])
-				if err := w.pool.AddNode(nd); err != nil {
+				if err := w.pool.AddNode(mkMiner(f[1], f[2])); err != nil {
+					outs[i] = "error"
+					return
+				}
+				outs[i] = "ok"
+			case "obj":
+				if len(f) != 4 {
+					return
+				}
+				o, ok := parseNat(f[1])
+				if !ok || o >= 1000000 || !isID(f[2]) || w.nobjs[o] != nil {
+					return
+				}
+				pkb, err := hex.DecodeString(f[3])
+				if err != nil || encryption.Hash(pkb) != f[2] {
+					outs[i] = "harness-bad-pk"
+					return
+				}
+				w.nobjs[o] = mkMiner(f[2], f[3])
+				outs[i] = "ok"
+			case "padd":
+				if len(f) != 3 {
+					return
+				}
+				p, ok1 := parseNat(f[1])
+				o, ok2 := parseNat(f[2])
+				if !ok1 || !ok2 || p >= 8 || w.nobjs[o] == nil {
+					return
+				}
+				if err := w.poolN(p).AddNode(w.nobjs[o]); err != nil {
 					outs[i] = "error"
 					return
 				}
@@ -207,11 +266,8 @@ func impl(ops []string) []string {
 					return
 				}
 				parts := []string{"pos"}
-				for k, nd := range w.pool.CopyNodes() {
-					if nd.SetIndex != k {
-						parts = append(parts, fmt.Sprintf("setindex-%d-at-%d", nd.SetIndex, k))
-					}
-					parts = append(parts, dec(nd.GetKey()))
+				for _, nd := range w.pool.CopyNodes() {
+					parts = append(parts, fmt.Sprintf("%s:%d", dec(nd.GetKey()), nd.SetIndex))
 				}
 				outs[i] = strings.Join(parts, " ")
 			case "seed", "seednb", "cseed":
@@ -393,6 +449,11 @@ func gen(r *rand.Rand, thorough bool, i int) []string {
 		nb = 6 + r.Intn(120)
 	}
 	size := r.Intn(maxN)
+	big := (!thorough && i%50 == 9) || (thorough && i%80 == 9)
+	if big { // miner sets beyond 256: an index packed into 8 bits overflows
+		size = []int{257, 300, 513}[r.Intn(3)]
+	}
+	shared := !big && i%6 == 2 && size >= 2
 	ids := make([]ident, size)
 	for k := range ids {
 		ids[k] = mkIdent(r)
@@ -408,10 +469,29 @@ func gen(r *rand.Rand, thorough bool, i int) []string {
 	for s := 0; s < 2; s++ {
 		ops = append(ops, fmt.Sprintf("new %d", mingen))
 		early := r.Intn(25) == 0 // a rank query before any seed (nil permutation)
-		for _, k := range r.Perm(size) {
-			ops = append(ops, fmt.Sprintf("addm %s %s", ids[k].id, ids[k].pk))
-			if r.Intn(7) == 0 {
+		if shared && s == 0 {
+			// the miners as node OBJECTS; some of the same objects also go into side pools of another composition (which
+			// renumbers their SetIndex); mostly the miner pool is touched again afterwards (which renumbers them back)
+			for k, id := range ids {
+				ops = append(ops, fmt.Sprintf("obj %d %s %s", k+1, id.id, id.pk))
+			}
+			for _, k := range r.Perm(size) {
+				ops = append(ops, fmt.Sprintf("padd 0 %d", k+1))
+			}
+			sub := r.Perm(size)[:1+r.Intn(size)]
+			for _, k := range sub {
+				ops = append(ops, fmt.Sprintf("padd %d %d", 1+r.Intn(2), k+1))
+			}
+			if r.Intn(4) != 0 {
+				k := sub[r.Intn(len(sub))]
+				ops = append(ops, fmt.Sprintf("obj %d %s %s", size+1, ids[k].id, ids[k].pk), fmt.Sprintf("padd 0 %d", size+1))
+			}
+		} else {
+			for _, k := range r.Perm(size) {
 				ops = append(ops, fmt.Sprintf("addm %s %s", ids[k].id, ids[k].pk))
+				if r.Intn(7) == 0 && !big {
+					ops = append(ops, fmt.Sprintf("addm %s %s", ids[k].id, ids[k].pk))
+				}
 			}
 		}
 		if early {
@@ -422,7 +502,9 @@ func gen(r *rand.Rand, thorough bool, i int) []string {
 		ops = append(ops, fmt.Sprintf("%s %d %s", kind, seed, permStr(seed, size)))
 		ops = append(ops, "ranks", "byrank", "gens")
 		for _, id := range ids {
-			ops = append(ops, "rank "+id.id, "isgen "+id.id)
+			if !big || r.Intn(size) < 6 {
+				ops = append(ops, "rank "+id.id, "isgen "+id.id)
+			}
 		}
 		ops = append(ops, "rank "+outsider.id, "isgen "+outsider.id)
 		// a second seed: ignored by SetRandomSeed (already set), taken by SetRandomSeedForNotarizedBlock
@@ -430,7 +512,9 @@ func gen(r *rand.Rand, thorough bool, i int) []string {
 			k2 := []string{"seed", "cseed", "seednb"}[(i/3)%3]
 			ops = append(ops, fmt.Sprintf("%s %d %s", k2, seed2, permStr(seed2, size)), "ranks")
 			for _, id := range ids {
-				ops = append(ops, "rank "+id.id)
+				if !big || r.Intn(size) < 6 {
+					ops = append(ops, "rank "+id.id)
+				}
 			}
 		}
 		if s == 0 && r.Intn(4) == 0 && size > 0 {
@@ -511,7 +595,7 @@ func oracle(ops, outs []string) *corr.Violation {
 	var first, firstKnown *corr.Violation
 	mk := func(sig, msg string) {
 		v := &corr.Violation{Signature: "C35:" + sig, Message: msg, Ops: ops, Impl: outs}
-		if sig == "update-does-not-replace" {
+		if sig == "stale-setindex-of-shared-node-object" {
 			if firstKnown == nil {
 				firstKnown = v
 			}
@@ -521,6 +605,7 @@ func oracle(ops, outs []string) *corr.Violation {
 	}
 	type seg struct {
 		miners  map[string]bool
+		side    bool // a node object of the miner pool was put into another pool AFTER the last AddNode to the miner pool
 		seeds   []string
 		answers map[string]string
 		n       int
@@ -531,6 +616,7 @@ func oracle(ops, outs []string) *corr.Violation {
 	objHash := map[int64]int64{}
 	objRank := map[int64]int64{}
 	hashRank := map[int64]int64{}
+	nobj := map[string]string{}
 	var ref []int64 // hashes of the notarized blocks, reference
 	lastUpd := int64(-1)
 	for i, op := range ops {
@@ -547,7 +633,20 @@ func oracle(ops, outs []string) *corr.Violation {
 		case "addm":
 			if cur != nil {
 				cur.miners[f[1]] = true
+				cur.side = false
 				cur.answers = map[string]string{}
+			}
+		case "obj":
+			nobj[f[1]] = f[2]
+		case "padd":
+			if cur != nil {
+				if f[1] == "0" {
+					cur.miners[nobj[f[2]]] = true
+					cur.side = false
+					cur.answers = map[string]string{}
+				} else {
+					cur.side = true
+				}
 			}
 		case "seed", "seednb", "cseed":
 			if cur != nil {
@@ -561,7 +660,9 @@ func oracle(ops, outs []string) *corr.Violation {
 			if cur == nil {
 				continue
 			}
-			cur.answers[op+"#"+strconv.Itoa(len(cur.seeds))] = outs[i]
+			if !cur.side {
+				cur.answers[op+"#"+strconv.Itoa(len(cur.seeds))] = outs[i]
+			}
 			if cur.seeded && cur.n == len(cur.miners) {
 				g := strings.Fields(outs[i])[1:]
 				seen := map[int]bool{}
@@ -573,12 +674,15 @@ func oracle(ops, outs []string) *corr.Violation {
 					}
 					seen[v] = true
 				}
-				if !okp {
+				if !okp && cur.side {
+					// known: SetIndex is a field of the node OBJECT; another pool holding the same object renumbered it
+					mk("stale-setindex-of-shared-node-object", fmt.Sprintf("op %d: ranks %q of %d miners are not a permutation of 0..%d: a miner's node object was also added to another pool, which rewrote its SetIndex", i, outs[i], cur.n, cur.n-1))
+				} else if !okp {
 					mk("ranks-not-permutation", fmt.Sprintf("op %d: ranks %q of %d miners are not a permutation of 0..%d", i, outs[i], cur.n, cur.n-1))
 				}
 			}
 		case "rank", "isgen", "byrank", "gens":
-			if cur != nil {
+			if cur != nil && !cur.side {
 				cur.answers[op+"#"+strconv.Itoa(len(cur.seeds))] = outs[i]
 			}
 		case "blk":
